@@ -87,7 +87,7 @@ Definition run_C01 (cmd : Z) (ints : list Z) (arrs : list (list Q)) : option (li
       let M := intn ints 0 in let L := intn ints 1 in let rows := intn ints 2 in let cols := intn ints 3 in
       Some (tab2 rows cols (apply_mask (mask_fast M L) (arr2 rows cols (arr arrs 0))))
   | 20%Z => (* the factory table *)
-      Some (concat (map (fun g => let '(_, tl, mw, gn) := g in [qofb tl; qofn mw; qofn gn]) grid_table))
+      Some (concat (map (fun g => let '(tl, mw, gn) := g in [qofb tl; qofn mw; qofn gn]) grid_table))
   | _ => None
   end.
 
